@@ -110,6 +110,8 @@ def u_append(ip):
     cfg = sym_config(ip, "c")
     old = m.f["_configs"].copy()
     old_ptr, old_start = m.f["_next_epoch_ptr"], m.f["_next_start_time"]
+    c.witness("configs", old)
+    c.witness("config", cfg)
     c.cover("pre")
     kind, res = try_call(ip, method(ip, m, "append"), [cfg])
     new = m.f["_configs"]
@@ -152,6 +154,8 @@ def u_next(ip):
     m = sym_manager(ip)
     seq = m.f["_configs"]
     ptr, start = m.f["_next_epoch_ptr"], m.f["_next_start_time"]
+    c.witness("configs", seq.copy())
+    c.witness("ptr", ptr)
     psum_unfold(ip, seq, ptr)
     c.cover("pre")
     hm = ip.call(method(ip, m, "has_more"), [], {})
@@ -192,6 +196,7 @@ def u_init(ip):
     j = z3.Int("tj")
     c.assume(ForAll([j], Implies(And(j >= 0, j < cfgs.length), is_type(cfgs.field("type", j)))))
     ip.summaries[f"{EPOCH}::EpochManager.append"] = append_contract
+    c.witness("configs", cfgs)
     holder = {}
 
     def inv(ip_, env):
@@ -244,6 +249,7 @@ def u_stan(ip):
     admissible = And(W >= 20, W >= I + T + B, I >= 1, T >= 1, B >= 1, P >= 1,
                      thw >= 1, thw <= I, thw <= T, thw <= B, thp >= 1, thp <= P, P % thp == 0)
     c.assume(admissible)
+    c.witness("args", [W, P, I, T, B, thp, thw])
     c.cover("pre")
     ECls = ip.repo(f"{EPOCH}::EpochConfig")
     aggs = {
@@ -307,6 +313,7 @@ def u_stan_guards(ip):
     W, P, I, T, B, thp, thw = [c.fresh(n, Int) for n in ("W", "P", "I", "T", "B", "thp", "thw")]
     bad = Or(W < 20, W < I + T + B)
     c.assume(bad)
+    c.witness("args", [W, P, I, T, B, thp, thw])
     c.cover("pre")
     kind, res = try_call(ip, ip.repo(key), [W, P, I, T, B, thp, thw])
     c.oblige("guard_raises", kind == "raise")
